@@ -12,6 +12,8 @@ IMPL = r'SourceMapBuilder\b'
 
 # mutation canaries (thorough tier): textual mutations of the EXTRACTED copy that must each fail an obligation of the named item
 MUTANTS = [
+    ('builder::SourceMapBuilder::strip_prefixes', r"verif_string_push\(&mut prefix, '/'\);", ''),
+    ('builder::SourceMapBuilder::strip_prefixes', r'(?m)^\s*break;\n', ''),
     ('builder::SourceMapBuilder::add_source_with_id', 'if id == count \\{', 'if id >= count || id == 0 {'),
     ('builder::SourceMapBuilder::add_source_with_id', 'self\\.sources_mapping\\.push\\(old_id\\);', 'self.sources_mapping.push(id);'),
     ('builder::SourceMapBuilder::set_source_contents', 'self\\.sources\\.len\\(\\) > self\\.source_contents\\.len\\(\\)', 'self.sources.len() != self.source_contents.len()'),
@@ -41,6 +43,8 @@ def build(u):
     u.spec('tokens.rs')
     u.spec('root.rs')
     u.spec('builder.rs')
+    u.spec('strip.rs')
+    u.prelude('shim_strip.rs')
     # contracts proved in other units (cross-unit imports)
     for g in ['get_dst_line', 'get_dst_col', 'get_src_line', 'get_src_col', 'get_src_id', 'is_range']:
         import_method(u, T, r"<'a> Token<'a>", g, 'types::Token::' + g, 'u2_lookup.ctr', 'u2_lookup')
@@ -73,3 +77,13 @@ def build(u):
         emit_method(u, B, IMPL, g, 'builder::SourceMapBuilder::' + g, prep=prep_get if g in ('get_source', 'get_source_contents') else prep)
     for g in ['set_file', 'set_source_root']:
         emit_method(u, B, IMPL, g, 'builder::SourceMapBuilder::' + g, prep=prep_mono, sig_prep=lambda f: mono(f, u, 'T', r'Into<Arc<str>>', 'Arc<str>'))
+
+    def prep_strip(f):
+        n = f.rewrite(r'\bprefix\.as_ref\(\)\.to_string\(\)', 'verif_as_ref_to_string(prefix)', expect=1)
+        n += f.rewrite(r"!prefix\.ends_with\('/'\)", "!verif_string_ends_with_char(&prefix, '/')", expect=1)
+        n += f.rewrite(r"\bprefix\.push\('/'\)", "verif_string_push(&mut prefix, '/')", expect=1)
+        n += f.rewrite(r'\bsource\.starts_with\(&prefix\)', 'verif_arc_starts_with(&*source, &prefix)', expect=1)
+        n += f.rewrite(r'\bsource\[prefix\.len\(\)\.\.\]\.into\(\)', 'verif_arc_after_prefix(&*source, &prefix)', expect=1)
+        u.count('R-shim-call', n)
+    # R-mono: verified for S = String (the only instantiation in the crate: rewrite_with_mapping passes a Vec<String>)
+    emit_method(u, B, IMPL, 'strip_prefixes', 'builder::SourceMapBuilder::strip_prefixes', prep=prep_strip, sig_prep=lambda f: mono(f, u, 'S', r'AsRef<str>', 'String'))
